@@ -126,7 +126,7 @@ def lazy_phases(prog, rep):
     collection of matches finished"""
     rep.rule("E6.p", "execute_lazy_into: lazy_graph.evaluate, store.evaluate_all and scoped_store.evaluate_all are each reached on every "
                      "normal path, in this order, after try_visit_matches_lazy returned Ok; none is called from the visit closure")
-    fs = [f for f in prog.fns.values() if f.name == "execute_lazy_into" and f.kind == "assocfn"]
+    fs = [f for f in prog.shape_fns() if f.name == "execute_lazy_into" and f.kind == "assocfn"]
     if len(fs) != 1:
         rep.violation("E6.p", "anchor-lost:execute_lazy_into", "", "lazy driver not found")
         return 0
